@@ -120,7 +120,27 @@ type R map[string]interface{}
 var strPool = []string{"", "a", "b", "ab", "A", "é", "x y", "0", "null"}
 var bytePool = []string{"", "a", "\x00", "\xff\xfe", "ab"}
 
+// WideTimes makes genTime also draw instants near the edges of MySQL's DATETIME range and of
+// what fits an int64 of nanoseconds since 1970 (set by the checks whose legs are known to
+// handle them; the binlog-driven checks keep the narrow range).
+var WideTimes bool
+
+var timeAnchors = []time.Time{
+	time.Date(1000, 1, 1, 0, 0, 0, 0, time.UTC),
+	time.Date(1677, 9, 21, 0, 12, 43, 0, time.UTC), // just before the int64-nanosecond range
+	time.Date(1677, 9, 22, 0, 0, 0, 0, time.UTC),
+	time.Date(1969, 12, 31, 23, 59, 59, 0, time.UTC),
+	time.Date(1970, 1, 1, 0, 0, 0, 0, time.UTC),
+	time.Date(2038, 1, 19, 3, 14, 8, 0, time.UTC),
+	time.Date(2262, 4, 11, 23, 47, 16, 0, time.UTC),
+	time.Date(2262, 4, 12, 0, 0, 0, 0, time.UTC), // just after it
+	time.Date(9999, 12, 31, 23, 59, 59, 0, time.UTC),
+}
+
 func genTime(t *rapid.T) time.Time {
+	if WideTimes && rapid.IntRange(0, 3).Draw(t, "widetime") == 0 {
+		return timeAnchors[rapid.IntRange(0, len(timeAnchors)-1).Draw(t, "anchor")].Add(time.Duration(rapid.IntRange(0, 3).Draw(t, "us")) * time.Microsecond * 250000)
+	}
 	base := time.Date(2020, 1, 1, 0, 0, 0, 0, time.UTC)
 	tm := base.Add(time.Duration(rapid.IntRange(0, 5).Draw(t, "day"))*24*time.Hour + time.Duration(rapid.IntRange(0, 3).Draw(t, "us"))*time.Microsecond*250000)
 	switch rapid.IntRange(0, 2).Draw(t, "zone") {
